@@ -3,7 +3,7 @@ package main
 // Generators for the decoder world.
 
 type dgen struct {
-	target     string  // buffer | decoder | "" (either)
+	target     string // buffer | decoder | "" (either)
 	nOps       int
 	malformed  float64 // probability that a block / match carries a malformation
 	wfaults    bool    // writer fault plan
